@@ -383,7 +383,7 @@ def bytes_cases(draw):
         "flag": draw(st.sampled_from(FLAGS + [0x00, 0x00, 0x04, 0x80, 0xFF]) | st.integers(0, 255)),
         "preimage": draw(st.booleans()),
         # incl. lengths at which the message as passed (body, + 4 flag bytes in preimage mode) is 32 or 64 bytes long
-        "msg": draw(st.one_of(st.binary(max_size=80), st.sampled_from([0, 28, 32, 60, 64]).flatmap(lambda n: st.binary(min_size=n, max_size=n)))).hex(),
+        "msg": draw(st.one_of(st.binary(max_size=80), gen.lookalike_bytes(), st.sampled_from([0, 28, 32, 60, 64]).flatmap(lambda n: st.binary(min_size=n, max_size=n)))).hex(),
         "comp": draw(st.booleans()),
         "mut": m,
         "prime": draw(st.booleans()) or kind == "pk-prefix",
